@@ -10,7 +10,7 @@ EXPLANATION = ('All functions of physical-plan/src/spill/spill_pool.rs are path-
                'new_sink (+1) and Drop for SpillPoolSink (-1); the last-writer path finalises every taken open file and wakes the '
                'pool reader; (4) file hand-off pairing — in push_batch, once a file has left open_write_files (or was published '
                'in files), every exit incl. error exits either re-queues it or marks it writer_finished and wakes its reader; (5) '
-               'progress publication — batches_written is bumped only after append_batch and flush and is followed by a wake. '
+               'progress publication — batches_written is bumped only after append_batch and flush and is followed by a wake, and a new file pushed into `files` is followed by the pool-level wake on every path. '
                'Exactly-once delivery and FIFO order of values are not decided.')
 # path rules cut loops after a bounded number of iterations: complete over rule instances, not over all unrollings
 EXHAUSTIVE = False
@@ -141,6 +141,20 @@ def check_handoff(ctx, facts, fnpath, prefix, rule='handoff-pairing'):
         fin = [i for i, (k, v, _) in enumerate(after) if k == 'set_writer_finished' and v == '1']
         sealed = bool(fin) and any(k == 'file_wake' for k, _, _ in after[fin[0]:])
         rk = ret_kind(o)
+        # a new file entering `files` is a state change a pool-level reader may be parked on: it is followed by the pool wake on
+        # every path (a wake that depends on an earlier snapshot of the queue is a lost wake-up)
+        for idx2, (k, fld, line) in enumerate(fe):
+            if k == 'push_back' and fld == 'files':
+                inst3 = 'push_batch[new file published, %s exit]' % rk
+                if not any(k2 == 'pool_wake' for k2, _, _ in fe[idx2 + 1:]):
+                    if ('nowake', inst3) not in seen_keys:
+                        seen_keys.add(('nowake', inst3))
+                        bad += 1
+                        ctx.fail('publication-order', inst3, ctx.loc(rec, line), 'a new spill file is pushed into `files` but the pool-level reader is not woken afterwards on this '
+                                 'path: a reader that found the queue empty and parked on the pool waker sleeps although a file with data exists', key='publication-order|newfile|' + inst3)
+                elif ('wake', inst3) not in seen_keys:
+                    seen_keys.add(('wake', inst3))
+                    ctx.ok('publication-order', inst3)
         sig = '%s exit after %s' % (rk, '>'.join(k for k in kinds[t:] if k not in ('file_wake', 'pool_wake')))
         if sig in seen_keys:
             continue
